@@ -170,6 +170,114 @@ def program_level(ctx, tg):
         shutil.rmtree(wd, ignore_errors=True)
 
 
+FILE_VARS = {"_impedancefile": "Impedance", "_startdistfile": "InitialDistFile", "_trackingfile": "tracking", "_outfile": "output"}
+
+
+def named_file(cwd, v):
+    """the file a file-valued option names for a process started in `cwd` ('' and /dev/null stay what they are)"""
+    if not isinstance(v, str) or v == "":
+        return v
+    return os.path.normpath(os.path.join(cwd, v))
+
+
+def program_layouts(ctx, tg):
+    """strengthening st3weak (seed C13-J): directory structure at program level.  main() writes <output>.cfg NEXT TO THE OUTPUT;
+    the names of the input files in it are the ones the original invocation used (relative to the working directory, from the
+    command line or from a parent configuration file).  Layouts: output in a sub-directory (also one with a blank in its name,
+    two levels deep), input files in other sub-directories, in the working directory with a './' prefix, above the working
+    directory ('../'), and a control with everything in one directory.  The real binary runs in the layout's working directory;
+    its own <output>.cfg is read back through the harness FROM WHERE IT LIES (`--config results/a.h5.cfg`, same working
+    directory) and every getter is compared with the original invocation's; file-valued options are compared as the FILE they
+    name (normalised path from the working directory), so a consistent re-basing convention would pass and a one-sided one does not."""
+    imp_text = "".join("%d %r %r\n" % (i, 1.0 + 0.01 * i, -0.5 + 0.002 * i) for i in range(600))
+    trk_text = "0.5 0.25\n-1.0 0.5\n"
+    base = ["-s", "32", "-T", "0.02", "-N", "100", "-n", "1", "--padding", "2", "-I", "1.2345678e-3", "--VacuumGap", "0"]
+    layouts = [
+        dict(name="output in results/, inputs in machine/ (command line)", cwd=".", out="results/a.h5",
+             files={"machine/geometric.dat": imp_text, "machine/track.txt": trk_text},
+             argv=["-Z", "machine/geometric.dat", "--tracking", "machine/track.txt"]),
+        dict(name="output two levels down (blank in the name), inputs named in a parent config file in the working directory", cwd=".", out="out/run 1/b.h5",
+             files={"machine/geometric.dat": imp_text, "machine/track.txt": trk_text},
+             parent=("ring.cfg", "Impedance=machine/geometric.dat\ntracking=machine/track.txt\nHarmonicNumber=100\n"), argv=["--config", "ring.cfg"]),
+        dict(name="output in results/, impedance ./imp.dat, start distribution from an earlier run in start/", cwd=".", out="results/a.h5",
+             files={"imp.dat": imp_text}, first=["-o", "start/s.h5"], argv=["-Z", "./imp.dat", "-i", "start/s.h5"]),
+        dict(name="working directory work/, inputs above it (../), output below it", cwd="work", out="results/a.h5",
+             files={"shared/geometric.dat": imp_text, "track.txt": trk_text},
+             argv=["-Z", "../shared/geometric.dat", "--tracking", "../track.txt"]),
+        dict(name="control: everything in the working directory", cwd=".", out="c.h5",
+             files={"geometric.dat": imp_text, "track.txt": trk_text}, argv=["-Z", "geometric.dat", "--tracking", "track.txt"]),
+    ]
+    for li, L in enumerate(layouts):
+        root = tempfile.mkdtemp(prefix="vc13l", dir=os.path.join(VERIF, ".cache"))
+        try:
+            cwd = os.path.normpath(os.path.join(root, L["cwd"]))
+            os.makedirs(cwd, exist_ok=True)
+            for fn, txt in L["files"].items():
+                fp = os.path.join(root, fn)
+                os.makedirs(os.path.dirname(fp), exist_ok=True)
+                with open(fp, "w") as f:
+                    f.write(txt)
+            if L.get("parent"):
+                with open(os.path.join(cwd, L["parent"][0]), "w") as f:
+                    f.write(L["parent"][1])
+            for d in set(os.path.dirname(x) for x in [L["out"]] + ([L["first"][1]] if L.get("first") else [])):
+                if d:
+                    os.makedirs(os.path.join(cwd, d), exist_ok=True)
+            case = dict(kind="binary-layout", layout=L["name"], cwd=L["cwd"], files=sorted(L["files"]), parent=L.get("parent"))
+            if L.get("first"):
+                r0 = subprocess.run(["timeout", "120", tg["inovesa"]] + L["first"] + base, cwd=cwd, capture_output=True, text=True, env=vp_build.xdg_env())
+                if r0.returncode != 0 or not os.path.exists(os.path.join(cwd, L["first"][1])):
+                    ctx.violation("impl-oracle", "binary: the run that provides the start distribution failed", case=dict(case, argv=L["first"] + base),
+                                  observed=dict(rc=r0.returncode, out=r0.stdout[-300:]), sig=dict(kind="binary", clause="run"))
+                    continue
+            av = ["-o", L["out"]] + base + L["argv"]
+            case["argv"] = av
+            r = subprocess.run(["timeout", "120", tg["inovesa"]] + av, cwd=cwd, capture_output=True, text=True, env=vp_build.xdg_env())
+            cfgp = os.path.join(cwd, L["out"] + ".cfg")
+            if r.returncode != 0 or not os.path.exists(cfgp):
+                ctx.violation("impl-oracle", "binary: <output>.cfg is not written next to the results (%s)" % L["name"], case=case,
+                              observed=dict(rc=r.returncode, out=r.stdout[-300:], err=r.stderr[-200:]), expected=L["out"] + ".cfg",
+                              sig=dict(kind="binary", clause="saved-name"))
+                continue
+            text = open(cfgp, newline="").read()
+            case["saved"] = text
+            a = oc.OptCase("la%d" % li)
+            a.raw_argv = ["inovesa"] + av
+            if L.get("parent"):
+                a.cfg = dict(file=L["parent"][0], state="file", items=[], raw_text=L["parent"][1])
+            b = oc.OptCase("lb%d" % li)
+            b.raw_argv = ["inovesa", "--config", L["out"] + ".cfg"]
+            b.cfg = dict(file=L["out"] + ".cfg", state="file", items=[], raw_text=text)      # the binary's file, byte for byte, where it lies
+            res = oc.run_cases(ctx, [a, b], tg)
+            ra, rb = res[a.cid]["impl"], res[b.cid]["impl"]
+            if oc.status(ra) != "run" or oc.status(rb) != "run":
+                ctx.violation("impl-oracle", "binary: the saved .cfg is not accepted by --config %s.cfg (%s)" % (L["out"], L["name"]), case=case,
+                              observed=dict(original=oc.status(ra), reload=oc.status(rb)), expected="run", sig=dict(kind="binary", clause="reload-status"))
+                continue
+            va, vb = oc.impl_vars(ra), oc.impl_vars(rb)
+            for k, v in va.items():
+                if k in ("_configfile", "_forcerun") or k in oc.NO_GETTER:
+                    continue
+                if k == "alpha0" and va.get("f_s") != 0:
+                    continue
+                w = vb.get(k)
+                if k in FILE_VARS:
+                    fa, fb = named_file("/cwd", v), named_file("/cwd", w)
+                    if fa != fb:
+                        ctx.violation("impl-oracle", "binary: the %s file read back from <output>.cfg is another file than the one the original run used "
+                                      "(%r, re-read as %r; both from the same working directory; the .cfg lies in %r) - layout: %s"
+                                      % (FILE_VARS[k], v, w, os.path.dirname(L["out"]) or ".", L["name"]), case=case,
+                                      observed={k: w, "names": fb}, expected={k: v, "names": fa},
+                                      sig=dict(kind="binary", clause="roundtrip-file", var=k, output_elsewhere=os.path.dirname(L["out"]) != ""))
+                elif not oc.same(v, w):
+                    ctx.violation("impl-oracle", "binary: %s read back from the saved .cfg differs from the original invocation (%s)" % (k, L["name"]),
+                                  case=case, observed={k: w}, expected={k: v}, sig=dict(kind="binary", clause="roundtrip", var=k))
+            ctx.case_done(("bin-layout", li), any(va.get(k) for k in ("_impedancefile", "_trackingfile", "_startdistfile")))
+            ctx.count("binary-layout:" + ("output-in-another-directory" if os.path.dirname(L["out"]) else "output-in-the-working-directory"))
+        finally:
+            shutil.rmtree(root, ignore_errors=True)
+
+
 def run(ctx, cases=None):
     ctx.rule = ("random assignments of all options over command line / config file / ./default.cfg / defaults (tokens: exactly "
                 "representable and 7-17 digit values, one or many bunch currents, alpha0 with and without synchrotron frequency, "
@@ -210,6 +318,7 @@ def run(ctx, cases=None):
         ctx.sample(cs[-3].replay())
     if cases is None:
         program_level(ctx, tg)
+        program_layouts(ctx, tg)
     ctx.extra["correspondence_disagreements"] = len(dis)
     ctx.assumptions += ["value formatting and re-reading (ostream <<, lexical_cast) are glue: the model's save writes tokens, the harness "
                         "compares the numeric value of each saved line and of each getter bit for bit",
